@@ -62,6 +62,7 @@ def trees():
     t["case-variants"] = {"a.py": H, "b/c.py": H.replace("MIT", "mit"), "b/d.py": H.replace("MIT", "MIT OR 0bsd"), "e.py": H.replace("MIT", "0BSD OR MIT"),
                           "LICENSES/MIT.txt": "mit\n", "LICENSES/0BSD.txt": "0bsd\n"}
     t["git"] = {"a.py": H, "ignored.log": "x\n", "d/b.py": H, "d/c.log": "x\n", ".gitignore": "*.log\n", "LICENSES/MIT.txt": "mit\n"}
+    t["git-submodule"] = {"a.py": H, "src/b.py": H, "LICENSES/MIT.txt": "mit\n"}
     return t
 
 
@@ -69,12 +70,25 @@ TREES = trees()
 NAMES = list(TREES)
 
 
-def build(name, dirname="c14"):
-    root = fresh_dir(dirname)
+def populate(name, root):
     materialise(root, TREES[name])
     if name == "git":
         gitrepo.init(root, add=False)
         gitrepo.git(root, "add", "a.py", "d/b.py", ".gitignore", "LICENSES/MIT.txt")
+    if name == "git-submodule":
+        up = root.parent / (root.name + "-upstream")
+        materialise(up, {"lib.c": "int lib;\n", "README": "no info\n"})
+        gitrepo.init(up, add=True, commit=True)
+        gitrepo.git(root, "init", "-q")
+        gitrepo.git(root, "submodule", "add", "-q", str(up), "vendor/lib")
+        gitrepo.git(root, "add", "-A")
+
+
+def build(name, dirname="c14"):
+    base = fresh_dir(dirname)
+    root = base / "proj"
+    root.mkdir()
+    populate(name, root)
     return root
 
 
@@ -133,12 +147,16 @@ def observe(root, name, argv_root=None, cwd=None, pool=None, listing=None, multi
 
 
 def n_jobs(name):
+    if name == "git-submodule":
+        return 3
     return sum(1 for p in TREES[name] if not p.startswith(("LICENSES/", ".reuse/")) and not p.endswith(("REUSE.toml", ".license"))
                and p not in ("ignored.log", "d/c.log"))
 
 
 def dir_entries(name):
     d = {}
+    if name == "git-submodule":
+        return {"": sorted(["a.py", "src", "LICENSES", "vendor", ".gitmodules", ".git"]), "src": ["b.py"], "vendor": ["lib"], "vendor/lib": sorted(["lib.c", "README", ".git"])}
     for p in TREES[name]:
         parts = p.split("/")
         for i in range(len(parts)):
@@ -257,10 +275,8 @@ def ev_cwd(c) -> R:
     r = R()
     base = fresh_dir("c14base")
     root = base / "proj"
-    materialise(root, TREES[c["tree"]])
-    if c["tree"] == "git":
-        gitrepo.init(root, add=False)
-        gitrepo.git(root, "add", "a.py", "d/b.py", ".gitignore", "LICENSES/MIT.txt")
+    root.mkdir()
+    populate(c["tree"], root)
     ref = observe(root, c["tree"])
     sub = sorted(d for d in dir_entries(c["tree"]) if d and not d.startswith((".reuse", "LICENSES")))
     cwd = {"root": root, "subdir": root / (sub[0] if sub else "LICENSES"), "licenses": root / "LICENSES", "outside": base}[c["cwd"]]
@@ -281,7 +297,7 @@ def ev_cwd(c) -> R:
         argv_root = ["--root", str(root) + "/"]
     else:
         # root discovered: only meaningful from the root, or inside a Git repository / below .reuse
-        if not (c["cwd"] == "root" or (c["tree"] == "git" and c["cwd"] in ("subdir", "licenses"))):
+        if not (c["cwd"] == "root" or (c["tree"] in ("git", "git-submodule") and c["cwd"] in ("subdir", "licenses"))):
             r.outcome, r.nontrivial = "n/a", False
             return r
         argv_root = []
@@ -338,7 +354,7 @@ def seed_probe():
             reader.append((a, b, type(e).__name__))
     out["reader"] = reader
     for name in NAMES:
-        if name in ("read-error", "git"):
+        if name in ("read-error", "git", "git-submodule"):
             continue
         root = build(name, "c14seed")
         out[name] = observe(root, name)
